@@ -29,6 +29,25 @@ def _err_lines(text, fname):
     return out
 
 
+def _blamed_lines(text, fname):
+    """like _err_lines, but an error reported inside a template / at an earlier declaration "required from" a later
+    line is blamed on that later line (the instantiating declaration), not on the template definition."""
+    out, req = {}, []
+    for ln in text.split("\n"):
+        m = re.match(r"^([^\s:]+):(\d+):(?:\d+:)?\s+required (?:from|by)", ln)
+        if m and os.path.basename(m.group(1)) == fname:
+            req.append(int(m.group(2)))
+            continue
+        m = re.match(r"^([^\s:]+):(\d+):(?:\d+:)? (?:fatal )?error:? ?(.*)$", ln)
+        if m and os.path.basename(m.group(1)) == fname:
+            if req:
+                out.setdefault(max(req), m.group(3))
+            else:
+                out.setdefault(int(m.group(2)), m.group(3))
+            req = []
+    return out
+
+
 PREFIX_KW = re.compile(r"^((static|virtual|inline|explicit|constexpr|extern)\s+)+")
 
 
@@ -78,7 +97,7 @@ class Evaluator:
             r = tools.gxx(["-fsyntax-only", "-w", "-fmax-errors=0", "-x", "c++", "t.h"], cwd=d)
             if r.rc == 0:
                 return text, lm, d
-            errs = _err_lines(r.err, "t.h")
+            errs = _blamed_lines(r.err, "t.h")
             if not errs:
                 # a diagnostic without location (e.g. "cc1plus: error: declaration of 'a0' as array of void"):
                 # find the first offending declaration by the shortest failing prefix
@@ -246,7 +265,7 @@ class Evaluator:
                 if a is None:
                     status[i] = ("mismatch", printed[i], "declarator name not found in the prototype")
                     continue
-                lines.append(a)
+                lines.append(f"namespace vf_c{i} {{ {a} }}")
                 owner[len(lines)] = i
                 second[i] = b2
             elif dcl["kind"] in ("var", "member"):
@@ -258,7 +277,8 @@ class Evaluator:
                 printed[i] = tn
                 # the element record holds the value type: interrogate deliberately strips a reference and the
                 # top-level cv-qualifiers there (scan_element/unwrap_reference), so both sides are stripped alike
-                lines.append(f"static_assert(std::is_same<vf_strip<decltype({tgt})>, vf_strip<{tn} > >::value, \"type\");")
+                lines.append(f"namespace vf_c{i} {{ static_assert(std::is_same<vf_strip<decltype({tgt})>, "
+                             f"vf_strip<{tn} > >::value, \"type\"); }}")
                 owner[len(lines)] = i
             else:
                 t = td_by_name.get(dcl["name"])
@@ -267,7 +287,8 @@ class Evaluator:
                     continue
                 tn = types[t["wrapped_type"]]["true_name"]
                 printed[i] = tn
-                lines.append(f"static_assert(std::is_same<{tgt}, {tn} >::value, \"typedef target\");")
+                lines.append(f"namespace vf_c{i} {{ static_assert(std::is_same<{tgt}, {tn} >::value, "
+                             f"\"typedef target\"); }}")
                 owner[len(lines)] = i
         open(os.path.join(d, "chk.cxx"), "w").write("\n".join(lines) + "\n")
         r = tools.gxx(["-fsyntax-only", "-w", "-fmax-errors=0", "chk.cxx"], cwd=d)
@@ -331,17 +352,19 @@ def minimise_rejected(ev, tu, dcl, nid, max_rounds=12):
     """reduce a declaration the parser rejects: the candidates go, smallest first, into one TU; the parser stops at
     its first error, which therefore names the smallest candidate that is still rejected."""
     cur = copy.deepcopy(dcl)
+    cur_msg = None
     for _ in range(max_rounds):
         cands = _fresh(sorted(dg.decl_candidates(cur), key=dg.decl_size)[:60], nid)
         if not cands:
             break
         # candidates may sit at different sites (a method also tried as a free function): one run per site
         hit = None
+        hit_msg = None
         for site in sorted({c["site"] for c in cands}, key=lambda x: (x != "global", x)):
             group = [c for c in cands if c["site"] == site and c["kind"] in ("typedef", "alias")] + \
                     [c for c in cands if c["site"] == site and c["kind"] not in ("typedef", "alias")]
-            tu2 = dict(tu, decls=group)
-            keep = set(c["id"] for c in group)
+            tu2 = dict(tu, decls=tu.get("support", []) + group)
+            keep = set(c["id"] for c in tu2["decls"])
             keep_env = set(e["id"] for e in tu["env"] + tu.get("late_env", []))
             text, lm, d = ev.gxx_filter(tu2, keep, keep_env, {})
             if not keep:
@@ -351,15 +374,20 @@ def minimise_rejected(ev, tu, dcl, nid, max_rounds=12):
                 continue
             tag, _msg = ev.first_rejected(tu2, keep, keep_env, text, lm, d, r)
             if tag and tag[0] == "decl":
-                c = [x for x in group if x["id"] == tag[1]][0]
+                cc = [x for x in group if x["id"] == tag[1]]
+                if not cc:
+                    continue            # a supporting typedef, not a candidate
+                c = cc[0]
                 if hit is None or dg.decl_size(c) < dg.decl_size(hit):
                     hit = c
+                    hit_msg = _msg
         if hit is None or dg.decl_size(hit) > dg.decl_size(cur):
             break
         if hit == cur:
             break
         cur = hit
-    return cur
+        cur_msg = hit_msg
+    return cur, cur_msg
 
 
 def minimise_mismatch(ev, tu, pending, nid, max_rounds=10, cand_cap=40):
@@ -379,7 +407,7 @@ def minimise_mismatch(ev, tu, pending, nid, max_rounds=10, cand_cap=40):
         if not cands:
             break
         cands.sort(key=lambda c: (dg.decl_size(c), c["id"]))
-        st, info = ev.evaluate(dict(tu, decls=cands), max_parser_reruns=40)
+        st, info = ev.evaluate(dict(tu, decls=tu.get("support", []) + cands), max_parser_reruns=40)
         moved = set()
         for c in cands:
             k = owner[c["id"]]
@@ -398,7 +426,9 @@ def minimise(ev, tu, pending, rejected_cap=6):
     for k, v in sorted(pending.items(), key=lambda kv: dg.decl_size(kv[1][0])):
         if v[1] == "rejected-valid" and n < rejected_cap:
             n += 1
-            out[k] = minimise_rejected(ev, tu, v[0], nid)
+            out[k], msg = minimise_rejected(ev, tu, v[0], nid)
+            if msg is not None:
+                last[k] = ("parser-rejected", msg)      # the reduced declaration's own diagnostic
     return out, last
 
 
@@ -408,6 +438,9 @@ def minimise(ev, tu, pending, rejected_cap=6):
 NAMED = r"(?:elab-\w+ )?(?:nested-)?(?:class|enum|enum-class|typedef|alias|fwd-class)/"
 PLAIN_NAMED = re.compile(r"^(?:method:|static-method:)?(?:ret|param|var|member|typedef|alias)=(?:elab-(?:struct|class) )?"
                          r"[\w-]+/([\w-]+)$")
+
+
+LOOKUP_VIA = re.compile(r"/(unq-usingdecl|unq-usingdir|unq-base|unq-injected-base|relqual|via-derived|nsalias)\b")
 
 
 def cause_of(cat, sig, printed="", text=""):
@@ -432,7 +465,15 @@ def cause_of(cat, sig, printed="", text=""):
             return "named-type-before-parenthesised-declarator"
         if m:
             return "type-name-not-recognised,via=" + m.group(1)
+        vias = set(LOOKUP_VIA.findall(sig))
+        if len(vias) == 1 and sig.count("=") == 1:
+            # a single component whose only named type is found through name lookup (pointer / reference to it,
+            # unnamed parameter, ...)
+            return "type-name-not-recognised,via=" + vias.pop()
         return None
+    vias = set(LOOKUP_VIA.findall(sig))
+    if len(vias) == 1 and re.search(r"fn\([^;]*;[^)]*/(unq-using|unq-base|unq-injected|relqual)", sig):
+        return "function-declarator-with-unrecognised-parameter-type-taken-as-initialiser,via=" + vias.pop()
     if re.search(r"^method:ret=(ptr|ref|rref|memptr)\((array|fn)\(.*cvq=const", sig) and "volatile" not in sig:
         return "const-method-returning-pointer-to-array-or-function-misplaces-const"
     if "volatile" in sig:
@@ -498,6 +539,30 @@ def run_case(ctx, case):
     return res
 
 
+_KNOWN = None
+
+
+def _known_keys():
+    global _KNOWN
+    if _KNOWN is None:
+        _KNOWN = {f["key"] for f in core.load_findings() if f["property"] == "C06"}
+    return _KNOWN
+
+
+def _needed_support(support, m):
+    """the typedef/alias declarations `m` refers to, transitively, in their original order"""
+    need, text = set(), dg.render_decl(m)
+    changed = True
+    while changed:
+        changed = False
+        for x in support:
+            if x["id"] not in need and x["id"] != m["id"] and re.search(r"\b" + x["name"] + r"\b", text):
+                need.add(x["id"])
+                text += " " + dg.render_decl(x)
+                changed = True
+    return [x for x in support if x["id"] in need]
+
+
 def judge_tu(b, d, tu, res, case):
     os.makedirs(d, exist_ok=True)
     ev = Evaluator(b, d)
@@ -537,6 +602,10 @@ def judge_tu(b, d, tu, res, case):
     if bad_env:
         tu = dict(tu, env=[e for e in tu["env"] if e["id"] not in bad_env],
                   late_env=[e for e in tu.get("late_env", []) if e["id"] not in bad_env])
+    # typedefs / aliases of this TU that both front-ends accept stay available to the reduced declarations
+    support = [x for x in tu["decls"] if x["kind"] in ("typedef", "alias") and
+               st.get(x["id"], ("?",))[0] in ("ok", "not-exported")]
+    tu = dict(tu, support=support)
     if pending:
         # identical declarations (up to names) need one reduction only
         uniq, rep = {}, {}
@@ -566,11 +635,19 @@ def judge_tu(b, d, tu, res, case):
             if key in seen:
                 continue
             seen.add(key)
+            wtu = {"env": tu["env"], "late_env": tu.get("late_env", []), "hosts": tu["hosts"],
+                   "decls": _needed_support(support, m) + [m]}
+            if not case.get("minimal") and ("C06:" + key) not in _known_keys():
+                # a key no listed finding explains: the witness must fail on its own (a diagnostic that spilled over
+                # from a neighbouring line of a batch TU is not evidence)
+                st1, _i1 = ev.evaluate(copy.deepcopy(wtu))
+                if category(st1.get(m["id"])) != cat:
+                    res.count("unconfirmed_batch_artefacts_dropped")
+                    continue
+                st[i] = st1[m["id"]]
             res.violation(key, witness=dg.render_decl(m), original=dg.render_decl(by[i]),
                           got=str(st[i][1:])[:300], expected="g++ accepts the declaration and the printed type is exactly "
-                          "the declared one", tu={"env": tu["env"], "late_env": tu.get("late_env", []),
-                                                  "hosts": tu["hosts"],
-                                                  "decls": [m]})
+                          "the declared one", tu=wtu)
     res.count("interrogate_runs", ev.runs)
 
 
